@@ -1,133 +1,6 @@
-import JP.Generated.Facts
-import JP.Impl.Merge
+import JP.Props.FactsPatch
+import JP.Props.FactsMerge
+import JP.Props.FactsCodec
+import JP.Props.FactsLegacy
 
-/-!
-# Regenerated facts = what the hand-written model assumes
-
-`JP/Generated/Facts.lean` is rewritten from the Go sources on every run.  Each theorem
-below equates one extracted fact with the corresponding assumption of the model; all are
-closed computations checked by the kernel (`rfl` / `decide`).
--/
-
-namespace JP
-namespace Facts
-
-/-- the nesting limit of the scanner model and of the reference grammar -/
-theorem maxNestingDepth_eq : Generated.maxNestingDepth = Scanner.maxNestingDepth
-    ∧ Generated.maxNestingDepth = maxDepth := by decide
-
-theorem defaults_eq : Generated.negDefault = ({} : Impl.Opts).neg
-    ∧ (Generated.limitDefault : Int) = ({} : Impl.Opts).limit
-    ∧ Generated.legacyNegDefault = true ∧ Generated.legacyLimitDefault = 0 := by decide
-
-theorem newOptions_eq : Generated.newOptions =
-    ["SupportNegativeIndices:SupportNegativeIndices", "AccumulatedCopySizeLimit:AccumulatedCopySizeLimit",
-     "AllowMissingPathOnRemove:false", "EnsurePathExistsOnAdd:false", "EscapeHTML:true"] := rfl
-
-/-- `safeSet` / `htmlSafeSet` of tables.go are the model's `safe` / `htmlSafe` -/
-theorem safeSet_eq : ∀ i : Fin 128, Generated.safeSet[i.val]? = some (safe (UInt8.ofNat i.val)) := by decide
-
-theorem htmlSafeSet_eq : ∀ i : Fin 128, Generated.htmlSafeSet[i.val]? = some (htmlSafe (UInt8.ofNat i.val)) := by decide
-
-theorem hex_eq : ∀ i : Fin 16, Generated.hexDigits[i.val]? = some (hexDigit i.val).toNat := by decide
-
-/-- scanner opcodes and parse states in their `iota` order (the model uses the numbers) -/
-theorem scanOpcodes_eq : Generated.scanOpcodes =
-    ["scanContinue", "scanBeginLiteral", "scanBeginObject", "scanObjectKey", "scanObjectValue", "scanEndObject",
-     "scanBeginArray", "scanArrayValue", "scanEndArray", "scanSkipSpace", "scanEnd", "scanError"]
-    ∧ Generated.parseStates = ["parseObjectKey", "parseObjectValue", "parseArrayValue"] := ⟨rfl, rfl⟩
-
-/-- every `Unmarshal*` entry point of the fork keeps number literals -/
-theorem useNumber_eq : Generated.useNumberForced = [true, true, true, true] := rfl
-
-/-- the six operation kinds are dispatched to the six methods of the same name -/
-theorem opDispatch_eq : Generated.opDispatch =
-    [(["add"], "add"), (["remove"], "remove"), (["replace"], "replace"), (["move"], "move"),
-     (["test"], "test"), (["copy"], "copy"), (["default"], "Kind")] := rfl
-
-theorem validateKinds_eq : Generated.validateKinds =
-    [(["add", "replace"], "ValueInterface"), (["move", "copy"], "From"), (["remove", "test"], "")] := rfl
-
-/-- every entry point that decodes with `UnmarshalValid*` checks `json.Valid` first -/
-theorem validGates_eq : Generated.validGates =
-    [("ApplyIndentWithOptions", true), ("CreateMergePatch", true), ("DecodePatch", true), ("Equal", true),
-     ("doMergePatch", true)] ∧ Generated.mergeGates = 2 := ⟨rfl, rfl⟩
-
-theorem applyReturnsNil_eq : Generated.applyReturnsNilOnError = true := rfl
-
-/-- every error site of `v5/patch.go`, in source order, with what it wraps -/
-theorem errorSites_eq : Generated.errorSites =
-    [("DecodePatch", ["r:ErrInvalid", "w:ErrInvalid"]),
-     ("add", ["w:ErrMissing", "w:ErrMissing", "w:err"]),
-     ("copy", ["w:err", "w:ErrMissing", "w:err", "w:ErrMissing", "w:ErrMissing", "w:err", "r:NewAccumulatedCopySizeError", "w:err"]),
-     ("doMergePatch", ["r:ErrBadJSONDoc", "r:ErrBadJSONPatch", "r:ErrBadJSONDoc", "r:ErrBadJSONDoc", "r:ErrBadJSONPatch", "r:ErrBadJSONPatch"]),
-     ("ensurePathExists", ["w:ErrInvalidIndex", "w:ErrInvalidIndex"]),
-     ("move", ["w:err", "w:ErrInvalid", "w:ErrMissing", "w:err", "w:err", "w:err", "w:err", "w:ErrMissing", "w:err"]),
-     ("partialArray.add", ["r:ErrInvalid", "w:err", "w:ErrInvalidIndex", "w:ErrInvalidIndex", "w:ErrInvalidIndex"]),
-     ("partialArray.get", ["r:ErrInvalid", "w:ErrInvalidIndex", "w:ErrInvalidIndex", "w:ErrInvalidIndex"]),
-     ("partialArray.remove", ["r:ErrInvalid", "w:ErrInvalidIndex", "w:ErrInvalidIndex", "w:ErrInvalidIndex"]),
-     ("partialArray.set", ["r:ErrInvalid", "w:ErrInvalidIndex", "w:ErrInvalidIndex"]),
-     ("partialDoc.get", ["r:ErrExpectedObject", "w:ErrMissing"]),
-     ("partialDoc.remove", ["r:ErrExpectedObject", "w:ErrMissing"]),
-     ("partialDoc.set", ["r:ErrExpectedObject"]),
-     ("remove", ["w:ErrMissing", "w:ErrMissing", "w:err"]),
-     ("replace", ["w:err", "w:err", "w:err", "w:ErrMissing", "w:ErrMissing", "w:err"]),
-     ("test", ["w:err", "w:ErrTestFailed", "w:ErrMissing", "w:err", "w:ErrTestFailed", "w:ErrTestFailed"])] := rfl
-
-theorem legacyErrorSites_eq : Generated.legacyErrorSites =
-    [("add", ["w:ErrMissing", "w:ErrMissing", "w:err"]),
-     ("copy", ["w:err", "w:ErrMissing", "w:err", "w:ErrMissing", "w:ErrMissing", "w:err", "r:NewAccumulatedCopySizeError", "w:err"]),
-     ("move", ["w:err", "w:ErrMissing", "w:err", "w:err", "w:err", "w:ErrMissing", "w:err"]),
-     ("remove", ["w:ErrMissing", "w:ErrMissing", "w:err"]),
-     ("replace", ["w:err", "w:ErrMissing", "w:err", "w:err", "w:ErrMissing", "w:ErrMissing", "w:err"]),
-     ("test", ["w:err", "w:ErrTestFailed", "w:ErrMissing", "w:err", "w:ErrTestFailed", "w:ErrTestFailed", "w:ErrTestFailed"])] := rfl
-
-/-- the pools and caches of the embedded codec: nothing else is shared between calls -/
-theorem codecVars_eq : Generated.codecVars =
-    ["ds:pool", "encodeStatePool:pool", "encoderCache:syncmap", "fieldCache:syncmap", "hex:other", "htmlSafeSet:other",
-     "nullLiteral:other", "numberType:other", "safeSet:other", "scannerPool:pool", "textUnmarshalerType:other"] := rfl
-
-/-- shared package-level state of the library: only these variables exist -/
-theorem packageVars_eq : Generated.packageVars =
-    ["AccumulatedCopySizeLimit", "ErrBadJSONDoc", "ErrBadJSONPatch", "SupportNegativeIndices", "endArray",
-     "endObject", "errBadMergeTypes", "startArray", "startObject"] := rfl
-
-theorem initResets_eq : Generated.initResets = ["data", "off", "savedError"] := rfl
-
-theorem legacyUsesStdlib_eq : Generated.legacyUsesStdlib = true := rfl
-
-/-! ### shared state: the Go-level facts the world model of C09/C10 (JP/World) assumes -/
-
-/-- S1: `scanner.reset` assigns exactly step, parseState, err, endTop -/
-theorem scanReset_eq : Generated.scanResetAssigns = ["endTop", "err", "parseState", "step"] := rfl
-
-/-- S2: `newScanner` = pool Get; bytes = 0; reset -/
-theorem newScanner_eq : Generated.newScannerResets = true := rfl
-
-/-- E1: `newEncodeState` resets the buffer and ptrLevel and panics on a non-empty ptrSeen -/
-theorem newEncodeState_eq : Generated.newEncodeState = [true, true, true, true] := rfl
-
-/-- D4: `lastKeys` has one assignment site (object decoded into a map) and two read sites
-(the two `…WithKeys` entry points) -/
-theorem lastKeys_sites_eq : Generated.lastKeysAssignSites = 1 ∧ Generated.lastKeysReadSites = 2 := ⟨rfl, rfl⟩
-
-/-- D5: `disallowUnknownFields` is assigned only in stream.go (the Decoder's private state) -/
-theorem disallowUnknown_eq : Generated.disallowUnknownAssignFiles = ["stream.go"] := rfl
-
-/-- L2: the order list `keys` is mentioned only by these functions of the library -/
-theorem keysMentions_eq : Generated.keysMentions = ["TrustMarshalJSON", "UnmarshalJSON", "mergeDocs", "remove", "set"] := rfl
-
-/-- L4: the package variables are never assigned by the library -/
-theorem packageVarWrites_eq : Generated.packageVarWrites = 0 := rfl
-
-/-- D1: each `Unmarshal*` takes one state from the pool, releases it by a deferred Put, and
-calls `init` after the Get -/
-theorem decodePool_eq : Generated.decodePoolDiscipline =
-    [("Unmarshal", 1, 1, true), ("UnmarshalValid", 1, 1, true), ("UnmarshalValidWithKeys", 1, 1, true),
-     ("UnmarshalWithKeys", 1, 1, true)] := rfl
-
-/-- no indexed write into a caller-supplied byte slice or through `*n.raw` in patch.go / merge.go -/
-theorem inputWrites_eq : Generated.inputWrites = 0 := rfl
-
-end Facts
-end JP
+/-! all regenerated-fact theorems (see the four modules) -/
